@@ -1,2 +1,49 @@
+"""C19: seconds_to_duration decomposes every non-negative count into d/h/m/s components that sum back to it.
+
+The loop over the literal unit list is unrolled (complete: four units).  Each component text f"{value}{unit}" is
+recorded in a ghost log (value term, unit); the postcondition is over that log: the components are positive, use
+distinct units in decreasing order and  sum(value_i * seconds(unit_i)) == seconds; for 0 the literal is "0s".
+That the rendered text denotes this sum relies on f-string rendering of ints, str.join, q() being the identity on
+digit/unit text (bounded check in props/c19.py) and the duration parser (C11)."""
+import z3
+
+import xlate.c7n_to_cel as X
+from pyvc import verify as V
+from pyvc import symexec as se
+from pyvc.parallel import run_contracts
+from pyvc.values import VInt, VStr, VNative
+
+R = X.C7N_Rewriter
+SCALE = {"d": 86400, "h": 3600, "m": 60, "s": 1}
+
+
+def contracts():
+    fn = R.__dict__["seconds_to_duration"].__func__
+
+    def invoke(run, S):
+        # the text-level helpers are applied to opaque component strings: abstract q() to "some string"
+        run.engine.overrides[R.__dict__["q"].__func__] = lambda run, text, quote=None: VStr(str, run.fresh("hv_q", z3.StringSort()))
+        run.ghost["str_method"] = lambda run, name, self, args, kw: VStr(str, run.fresh("hv_join", z3.StringSort()))
+        S.joined = []
+        run.ghost["join_log"] = S.joined
+        return run.call(VNative(fn), [S.period])
+
+    def post(S, r):
+        parts = []
+        for out, raw in S._run.ghost.get("fstrings", []):
+            if len(raw) == 2 and isinstance(raw[0], VInt) and isinstance(raw[1], VStr):
+                parts.append((raw[0].t, se.conc(raw[1])))
+        n = S.period.t
+        if not parts:
+            return n == 0      # (the "0s" literal path)
+        units = [u for _, u in parts]
+        order_ok = units == sorted(set(units), key=lambda u: -SCALE[u]) and all(u in SCALE for u in units)
+        total = sum(v * SCALE[u] for v, u in parts)
+        return z3.And(z3.BoolVal(order_ok), total == n, *[v > 0 for v, _ in parts])
+    return [V.Contract("xlate.c7n_to_cel:C7N_Rewriter.seconds_to_duration",
+                       [("period", V.IntDom(int, 0, 2 ** 53, "0 <= seconds < 2**53"))], invoke=invoke,
+                       native=lambda N: R.seconds_to_duration(N["period"]), ret=post, exc={}, cover=False)]
+
+
 def contracts_into(rep, known):
-    pass
+    run_contracts(contracts(), rep, known=known)
